@@ -19,6 +19,7 @@ void NAME(void) { \
   g_cancel_at_entry = nondet_bool(); g_made = 0; \
   for (int i = 0; i < 2; i++) { \
     unsigned long nt = nondet_ulong(); __CPROVER_assume(nt <= 2); \
+    g_impl[i].status_ = nondet_int(); /* statics are zero-initialised: the ingest outcome must be made arbitrary explicitly */ \
     g_impl[i].halfedge_.start_._base0.ptr_ = g_start; g_impl[i].halfedge_.start_._base0.size_ = 3 * nt; \
     g_impl[i].meshRelation_.triRef._base0.ptr_ = g_triref; g_impl[i].meshRelation_.triRef._base0.size_ = nt; \
     /* representation invariant (C01): an Impl with an error status is empty */ \
